@@ -4,7 +4,7 @@ import ast
 from ..prog import norm, walk_local, AnalysisError, walk_body
 from ..cfg import cfg_of, reaching_defs, node_exprs, walk_expr, node_defs
 from ..calls import calls_of
-from ..common import calls_at, dispatcher, const_of
+from ..common import calls_at, dispatcher, const_of, stamper
 from ..report import site
 from . import scope
 
@@ -34,7 +34,7 @@ def reads_of_schema(calls, f, node, sp):
                         for t in tg:
                             if t.kind == "dynamic" and t.name == "keyword-dispatch":
                                 continue
-                            if t.kind == "func" and t.func.name == "_set":
+                            if t.kind == "func" and t.func is stamper(calls.prog):
                                 continue
                             if t.kind == "dynamic" and t.name == "id_of":
                                 out.append(("id_of", None, sub))
